@@ -231,7 +231,8 @@ CLAIMED["C07"] = (
 CLAIMED["C04"] = (
     "schedule exploration of generated @defer/@stream requests (deterministic scheduler, async-iterator "
     "sources, consumer pulls, early execution on/off) with a payload assembler; oracle = reference executor on "
-    "the directive-free operation: equality, or a refinement relation when errors propagate",
+    "the directive-free operation: equality, or a refinement relation when errors propagate; plus streamed lists "
+    "longer than the stream item queue's capacity read to the end (items = 0..n-1 in order)",
     "Applying the subsequent payloads to the initial payload as the format prescribes yields the reference "
     "response whenever it is error-free or error propagation is disabled (then also the same error paths); "
     "when errors propagate the assembled data refines the non-propagating reference: equal leaves, nulls "
@@ -258,7 +259,8 @@ CLAIMED["C05"] = (
 CLAIMED["C06"] = (
     "fault/stop-point exploration under the deterministic scheduler: generated incremental and plain requests "
     "x stop kind (aclose after k, abort with three reason kinds before/after the initial result, none) x early "
-    "execution x schedules, with clock-free history invariants each under its own signature",
+    "execution x schedules, with clock-free history invariants each under its own signature; the same stops on "
+    "subscription response streams and on streamed lists longer than the stream item queue's capacity",
     "After the stop the awaiting caller is released at the next quiescence, nothing hangs, and once the consumer "
     "has followed the documented protocol and the harness gates are released no task or harness resolver is left, "
     "every started generator source ran its finally exactly once, async_work_finished fired exactly once and "
